@@ -65,6 +65,16 @@ class Hist:
         self.nid = 0
         self.incremental = incremental
         self.opnames = []
+        self.faults = []
+        self.faulted = set()
+
+    def maybe_fault(self, p):
+        """the disk read behind the notification just appended fails transiently (file being
+        replaced, momentarily unreadable); the client announces the file again later"""
+        if self.rng.random() < 0.12:
+            self.faults.append({"op": len(self.ops) - 1, "seam": "open", "nth": 0,
+                                "kind": self.rng.choice(["enoent", "eio", "eacces", "eio-read"])})
+            self.faulted.add(p)
 
     def rid(self):
         self.nid += 1
@@ -85,6 +95,7 @@ class Hist:
         self.disk[p] = text
         self.ops.append(gen.env_write(p, text))
         self.ops.append(gen.did_save(p))
+        self.maybe_fault(p)
         self.docs[p] = model.lines_from_disk(text.encode("utf-8"))
 
     def close(self, p, discard=False):
@@ -112,6 +123,7 @@ class Hist:
                 self.disk[p] = new_text
                 self.ops.append(gen.env_write(p, new_text))
                 self.ops.append(rng.choice([gen.did_save(p), gen.did_close(p)]))
+                self.maybe_fault(p)
                 return
             self.open(p)
         old = self.docs[p]
@@ -241,12 +253,16 @@ def gen_case(g):
                     h.open(p)
             else:
                 h.save(p)
+    # files whose announcement met a transient read failure are announced once more, cleanly
+    for p in sorted(h.faulted):
+        if p in h.disk:
+            h.ops.append(gen.did_save(p) if p in h.docs else gen.did_close(p))
     h.ops.append({"k": "obs", "what": "saved"})
     h.ops.append({"k": "battery", "spec": BATTERY})
     h.ops += [gen.req(99990, "shutdown"), gen.note("exit")]
     # D.race: some of the client's disk writes land *inside* the handler of the preceding
     # message instead of between two messages (client and server are independent processes)
-    faults = []
+    faults = list(h.faults)
     if rng.random() < 0.4:
         k = 1
         while k < len(h.ops):
@@ -254,9 +270,12 @@ def gen_case(g):
             if op["k"] == "env" and op["do"] == "write" and prev["k"] == "msg" and prev["m"].get("method") in (
                     "textDocument/didOpen", "textDocument/didSave", "textDocument/didClose",
                     "textDocument/didChange") and rng.random() < 0.3:
+                del h.ops[k]
+                for f_ in faults:  # operations after the removed one move up
+                    if f_["op"] > k:
+                        f_["op"] -= 1
                 faults.append({"op": k - 1, "seam": rng.choice(["open", "isfile"]), "nth": rng.randint(0, 2),
                                "kind": "race", "env": [op]})
-                del h.ops[k]
                 continue
             k += 1
     A = {"argv": argv, "tree": tree, "ops": h.ops, "sync_kind": 2 if incremental else 1, "faults": faults,
